@@ -749,13 +749,29 @@ fn rust_string_literals_after(src: &str, marker: &str) -> Vec<String> {
     out
 }
 
-fn repo_test_inputs() -> Vec<(Kind, String)> {
+fn rs_files(dir: &std::path::Path, out: &mut Vec<std::path::PathBuf>) {
+    if let Ok(rd) = std::fs::read_dir(dir) {
+        let mut es: Vec<_> = rd.filter_map(|e| e.ok()).map(|e| e.path()).collect();
+        es.sort();
+        for p in es {
+            if p.is_dir() { if p.file_name().map_or(false, |n| n != "target" && n != "node_modules") { rs_files(&p, out); } }
+            else if p.extension().map_or(false, |e| e == "rs") { out.push(p); }
+        }
+    }
+}
+
+/// quick tier: the parser crate's own tests; thorough tier: every literal passed to parse_* anywhere under crates/
+fn repo_test_inputs(all: bool) -> Vec<(Kind, String)> {
     let repo = std::env::var("VERIF_REPO").unwrap_or_else(|_| "/repo".into());
+    let mut files = vec![];
+    if all { rs_files(std::path::Path::new(&format!("{repo}/crates")), &mut files); }
+    else { files.push(std::path::PathBuf::from(format!("{repo}/crates/parser/src/tests/mod.rs"))); }
     let mut out = vec![];
-    for f in ["crates/parser/src/tests/mod.rs"] {
-        if let Ok(src) = std::fs::read_to_string(format!("{repo}/{f}")) {
-            for s in rust_string_literals_after(&src, "parse_operation_document(") { out.push((Kind::Op, s)); }
-            for s in rust_string_literals_after(&src, "parse_type_system_document(") { out.push((Kind::Ts, s)); }
+    let mut seen = HashSet::new();
+    for f in files {
+        if let Ok(src) = std::fs::read_to_string(&f) {
+            for s in rust_string_literals_after(&src, "parse_operation_document(") { if seen.insert((0, s.clone())) { out.push((Kind::Op, s)); } }
+            for s in rust_string_literals_after(&src, "parse_type_system_document(") { if seen.insert((1, s.clone())) { out.push((Kind::Ts, s)); } }
         }
     }
     out
@@ -899,7 +915,7 @@ fn main() {
         cx.add(kind, text, "corpus", 0, None, in_lang, json!({"corpus": name, "constructs": constructs}));
     }
     // 1. the repository's own parser test inputs (dedented; original too when short enough)
-    for (kind, text) in repo_test_inputs() {
+    for (kind, text) in repo_test_inputs(thorough) {
         let d = dedent(&text);
         cx.add(kind, &d, "repo-tests", 0, None, true, json!({}));
         if let Some(toks) = lex(&d) {
@@ -913,7 +929,7 @@ fn main() {
     }
 
     // 2. gen.rs schemas and documents, one definition (or a few) at a time, canonical + trivia variants
-    let n_schemas = if thorough { 120 } else { 14 };
+    let n_schemas = if thorough { 320 } else { 14 };
     for _ in 0..n_schemas {
         let s = gen_schema(&mut rng, &SchemaCfg::default());
         // schema pieces
@@ -937,7 +953,7 @@ fn main() {
     }
 
     // 3. production-coverage generator
-    let n_pg = if thorough { 2500 } else { 260 };
+    let n_pg = if thorough { 8000 } else { 260 };
     for i in 0..n_pg {
         let kind = if i % 2 == 0 { Kind::Op } else { Kind::Ts };
         let mut pg = PG { rng: &mut rng, t: vec![], budget: 14, constructs: vec![] };
@@ -949,7 +965,7 @@ fn main() {
     }
 
     // 4. malformed stream
-    let n_mal = if thorough { 2500 } else { 260 };
+    let n_mal = if thorough { 7000 } else { 260 };
     for i in 0..n_mal {
         let kind = if i % 2 == 0 { Kind::Op } else { Kind::Ts };
         let text = if i % 3 == 0 { random_soup(&mut rng) } else {
